@@ -7,7 +7,7 @@ shift    fourier_shift_expand / fourier_translation_operator on complex arrays a
          (T_{s-a} T_a == roll by the integer s, which ties sub-pixel shifts to exact rolls).
 prop     ProbeBase._compute_propagator_arrays + both _propagate_array implementations: unit modulus,
          P_{-z} P_z == 1, P_a P_b == P_{a+b}, energy preserved, same identities on propagated waves.
-adjoint  sum_patches against the definition of the adjoint of an index gather (np.add.at reference)
+adjoint  sum_patches against the definition of the adjoint of an index gather (numpy bincount reference)
          and <gather(o), y> == <o, sum_patches(y)> with quantem's own gather, real and complex paths.
 chain    the public forward chain used by Ptychography.reconstruct (dset.forward -> probe_model.forward
          -> obj_model.forward -> forward_operator -> detector_model.forward) on a pure-phase object:
@@ -235,6 +235,29 @@ def adjoint_cases(draw):
 
 
 @st.composite
+def adjoint_large_cases(draw):
+    """One sum_patches call with about 2**20 or 2**21 patch pixels (never an exact multiple of 2**20):
+    realistic batch x roi sizes, where block-wise / chunked scatter paths are exercised."""
+    R, C = draw(st.integers(96, 160)), draw(st.integers(96, 160))
+    target = draw(st.sampled_from([2**20, 2**20, 2**21]))
+    N = target // (R * C)
+    if draw(st.sampled_from([False, True, True, True])):
+        N += draw(st.integers(1, 3))
+    if (N * R * C) % 2**20 == 0:
+        C += 1
+    return {
+        "kind": "adjoint",
+        "large": True,
+        "obj_shape": [1, draw(st.integers(100, 300)), draw(st.integers(100, 300))],
+        "patch": [N, R, C],
+        "index_mode": draw(st.sampled_from(["window", "window", "random"])),
+        "index_dtype": draw(st.sampled_from(["int64", "int32"])),
+        "pdtype": draw(st.sampled_from(["complex128", "complex64", "float64", "float32"])),
+        "seed": draw(SEEDS),
+    }
+
+
+@st.composite
 def _geometry(draw, lo=2, hi=12):
     R, C = draw(_side(lo, hi)), draw(_side(lo, hi))
     return {
@@ -285,6 +308,11 @@ def chain_cases(draw):
     return g
 
 
+# overall amplitude scale of exit waves and measured amplitudes (dose / probability normalised data are
+# far from O(1)); all projection tolerances are relative to the scale
+PROJ_SCALES = [1e-4, 1e-6, 1e-5, 1e-3, 1e-2, 0.1, 1.0, 10.0, 1e3]
+
+
 @st.composite
 def proj_cases(draw, even_only=False):
     g = draw(_geometry(2, 12))
@@ -297,7 +325,7 @@ def proj_cases(draw, even_only=False):
             "M": draw(st.sampled_from([1, 1, 2, 3, 4])),
             "N": draw(st.integers(1, 3)),
             "dtype": draw(st.sampled_from(["complex128", "complex64"])),
-            "amp": draw(st.sampled_from([1.0, 0.1, 10.0])),
+            "amp": draw(st.sampled_from(PROJ_SCALES)),
             "zeros": draw(st.sampled_from(["none", "some", "some", "most", "all"])),
             "seed": draw(SEEDS),
         }
@@ -616,10 +644,9 @@ def _make_indices(case):
 
 def _scatter_tol(y, idx, size, bits32):
     """Rounding bound for a sum of n terms in any order: (n-1)*eps*sum|terms| (first order); x4."""
-    cnt = np.zeros(size)
-    np.add.at(cnt, idx.ravel(), 1.0)
-    asum = np.zeros(size)
-    np.add.at(asum, idx.ravel(), np.abs(y.astype(np.complex128)).ravel())
+    flat = idx.ravel().astype(np.int64)
+    cnt = np.bincount(flat, minlength=size).astype(np.float64)
+    asum = np.bincount(flat, weights=np.abs(y.astype(np.complex128)).ravel(), minlength=size)
     eps = EPS32 if bits32 else EPS64
     floor = (1e-6 if bits32 else 1e-12) * float(np.abs(y).max() if y.size else 0.0)
     return 4 * eps * (cnt + 1) * asum + floor, cnt
@@ -633,9 +660,11 @@ def _judge_adjoint(ctx, case, label, idx, y, out, obj_shape2d, o_list, gathers, 
         _fail(case, "sum_patches returned shape %s, expected %s" % (tuple(out.shape), (Ro, Co)))
     out = out.astype(np.complex128)
     tol, cnt = _scatter_tol(y, idx, size, bits32)
-    want = np.zeros(size, dtype=np.complex128)
-    np.add.at(want, idx.ravel(), y.astype(np.complex128).ravel())
-    _judge(case, label, np.abs(out.ravel() - want), tol, "sum_patches vs the adjoint of the index gather (np.add.at)")
+    # transpose of the index-gather matrix: want[k] = sum of y[p] over all p with idx[p] == k
+    flat = idx.ravel().astype(np.int64)
+    y128 = y.astype(np.complex128).ravel()
+    want = np.bincount(flat, weights=y128.real, minlength=size) + 1j * np.bincount(flat, weights=y128.imag, minlength=size)
+    _judge(case, label, np.abs(out.ravel() - want), tol, "sum_patches vs the adjoint of the index gather (numpy bincount reference)")
     for o, g in zip(o_list, gathers):
         o = o.astype(np.complex128)
         g = g.astype(np.complex128)
@@ -668,6 +697,13 @@ def _check_adjoint(ctx, case):
     classes = ["adjoint", "adjoint:" + pd, "adjoint:" + case["index_mode"], "adjoint:" + case["index_dtype"]]
     if repeats:
         classes.append("adjoint:repeated_indices")
+    npix = int(idx.size)
+    if npix > 2**21:
+        classes.append("adjoint:patch_pixels_above_2^21")
+    elif npix > 2**20:
+        classes.append("adjoint:patch_pixels_2^20_to_2^21")
+    elif npix > 2**19:
+        classes.append("adjoint:patch_pixels_2^19_to_2^20")
     ctx.record(case, repeats, classes)
 
     with ctx.sut(case, "sum_patches"):
@@ -884,13 +920,16 @@ def _check_proj(ctx, case):
     amp = float(case["amp"])
     rng = np.random.default_rng(case["seed"] + 2)
     x = _cplx(case["seed"], (M, N, R, C), amp, dtype)
-    # measured amplitudes: exact zeros or values in [1e-3, 2]*amp (detector-centred, like the data)
-    m = rng.uniform(1e-3, 2.0, (N, R, C)) * amp
+    # measured amplitudes: exact zeros or values in [max(1e-3*amp, 1e-7), 2*amp] (detector-centred, like
+    # the data); the absolute floor keeps them well above the library's 1e-9 regulariser
+    m = rng.uniform(max(1e-3, 1e-7 / amp), 2.0, (N, R, C)) * amp
     zfrac = {"none": 0.0, "some": 0.2, "most": 0.8, "all": 1.0}[case["zeros"]]
     m[rng.random((N, R, C)) < zfrac] = 0.0
     m = m.astype(np.float32 if f32 else np.float64)
     has_zero = bool(np.any(m == 0))
-    classes = ["proj", "proj:M%d" % M, "proj:" + dtype, "proj:zeros_" + case["zeros"]]
+    classes = ["proj", "proj:M%d" % M, "proj:" + dtype, "proj:zeros_" + case["zeros"], "proj:scale_%g" % amp]
+    if M >= 2 and amp <= 1e-3:
+        classes.append("proj:mixed_state_scale_le_1e-3")
     if R % 2 or C % 2:
         classes.append("proj:odd_roi")
     if R != C:
@@ -915,24 +954,35 @@ def _check_proj(ctx, case):
     m64 = m.astype(np.float64)
     x64 = x.astype(np.complex128)
 
-    # tolerance, per detector pixel.  Rounding: 1e-10 (complex128) / 1e-4 (complex64) of the scale.
-    # Mixed state: estimate_amplitudes adds 1e-9 to every coefficient ("to avoid diverging gradients"),
-    # which changes the incoherent norm sqrt(S) by at most sqrt(M)*1e-9 (triangle inequality); the
-    # projected magnitude m*sqrt(S)/sqrt(S') is then off by at most m*sqrt(M)*1e-9/sqrt(S').  x4.
+    # tolerance, per detector pixel, relative to the scale.  Rounding: 1e-10 (complex128) / 1e-4
+    # (complex64) of the scale.  Mixed state: estimate_amplitudes adds 1e-9 to every coefficient ("to
+    # avoid diverging gradients"), which changes the incoherent norm sqrt(S) by at most sqrt(M)*1e-9
+    # (triangle inequality); the projected magnitude m*sqrt(S)/sqrt(S') is then off by at most
+    # m*sqrt(M)*1e-9/sqrt(S') with sqrt(S') >= sqrt(S) - sqrt(M)*1e-9.  x4.
     scale = max(amp, float(m64.max()))
     base = (1e-4 if f32 else 1e-10) * scale
+    sq = math.sqrt(M) * LIB_EPS
     Sx = ref.centred_magnitudes(x64)  # sqrt of the incoherent sum, detector-centred
     reg = 0.0
     if M >= 2:
-        reg = 4 * math.sqrt(M) * LIB_EPS * (m64 / np.maximum(Sx - math.sqrt(M) * LIB_EPS, 1e-300) + 1.0)
+        reg = np.where(Sx > 2 * sq, 4 * sq * m64 / np.maximum(Sx - sq, 1e-300), np.inf)
     mags = ref.centred_magnitudes(y_n)
     _judge(case, "proj", np.abs(mags - m64), base + reg, "Fourier magnitudes after projection == measured amplitudes")
     mags_g = ref.centred_magnitudes(x64 + g_n)
     _judge(case, "proj", np.abs(mags_g - m64), base + reg, "Fourier magnitudes of overlap + gradient_step == measured amplitudes")
-    # idempotence, judged per Fourier coefficient (ortho FFT is an isometry)
+    # idempotence, judged per Fourier coefficient (ortho FFT is an isometry).  With G = F(P(x)) and
+    # T = its incoherent magnitude, the second projection multiplies G by m/(T+d), |d| <= sqrt(M)*1e-9,
+    # so each coefficient moves by at most (|m-T| + sqrt(M)*1e-9) * T/(T - sqrt(M)*1e-9).  x4.  Where
+    # m == 0 both are exactly 0.
+    reg_i = 0.0
+    if M >= 2:
+        T = mags
+        reg_i = np.where(
+            m64 == 0, 0.0, np.where(T > 2 * sq, 4 * (np.abs(m64 - T) + sq) * T / np.maximum(T - sq, 1e-300), np.inf)
+        )
     Fy = np.fft.fft2(y_n, norm="ortho")
     Fy2 = np.fft.fft2(y2_n, norm="ortho")
-    tol_c = np.fft.ifftshift(np.broadcast_to(base + 2 * reg, m64.shape), axes=(-2, -1))[None]
+    tol_c = np.fft.ifftshift(np.broadcast_to(base + reg_i, m64.shape), axes=(-2, -1))[None]
     _judge(case, "proj", np.abs(Fy2 - Fy), tol_c * np.ones(Fy.shape), "P(P(x)) == P(x)")
     Fg2 = np.fft.fft2(g2_n, norm="ortho")
     _judge(case, "proj", np.abs(Fg2), tol_c * np.ones(Fg2.shape), "gradient_step at a projected point == 0")
@@ -959,6 +1009,7 @@ def search(ctx):
         ctx.exclude(KEY_ODD_PROJ)
     run("proj", proj_cases(even_only=even_only), 300, 3000)
     run("adjoint", adjoint_cases(), 400, 4000)
+    run("adjoint-large", adjoint_large_cases(), 10, 30)
     run("shift", shift_cases(), 700, 7000)
     run("prop", prop_cases(), 300, 3000)
     run("chain", chain_cases(), 300, 3000)
